@@ -150,9 +150,9 @@ package analyzer
 //@ trusted (*Analyzer).AnalyzeWithExternalDeclarations
 //@   ensures result != nil && DiagsOK(result)
 //@ trusted (*Analyzer).Analyze
-//@   ensures result != nil && DiagsOK(result)
+//@   ensures result != nil && DiagsOK(result) && result.Accounts != nil
 //@ trusted (*Analyzer).AnalyzeResolved
-//@   ensures result != nil
+//@   ensures result != nil && result.Accounts != nil
 
 // ---- C18: declared sets are the union of the file's own declarations and the external ones; external maps are read-only ----
 // (analyzeInternal has no modifies clause: a write to external.Accounts / external.Commodities - maps that the workspace
